@@ -40,12 +40,16 @@ class C14(Check):
                 # front in another memory layout (Fortran order, a column slice of a wider array, every other row of a longer one);
                 # continuous tie-free fronts, 2nn with any number of objectives, pcd / mnn with two (outside the known findings)
                 label = self.rng.choice(["2nn", "pcd", "mnn"])
-                F, style = crowd.gen_front(self.rng, objs=(2, 3, 4) if label == "2nn" else (2,), styles=["simplex", "curve"])
+                if label == "2nn" and self.rng.random() < 0.4:
+                    F, style = crowd.gen_front(self.rng, max_n=5, objs=(3, 4, 5), styles=["simplex"])       # not more points than objectives
+                else:
+                    F, style = crowd.gen_front(self.rng, objs=(2, 3, 4) if label == "2nn" else (2,), styles=["simplex", "curve"])
                 yield {"kind": "metric", "F": enc(F), "style": style, "label": label, "n_remove": crowd.pick_n_remove(self.rng, len(F), F.shape[1]),
                        "seed": self.rng.randrange(2 ** 31), "raw": True, "layout": self.rng.choice(layouts.LAYOUTS[1:])}
                 continue
             # fronts with a constant objective are named by the property: one case in five
-            F, style = crowd.gen_front(self.rng, styles=["const"] if self.rng.random() < 0.2 else None)
+            r = self.rng.random()
+            F, style = crowd.gen_front(self.rng, styles=["const"] if r < 0.2 else ["fewdistinct"] if r < 0.27 else None)
             label = self.rng.choice(["mnn", "2nn", "pcd"])
             yield {"kind": "metric", "F": enc(F), "style": style, "label": label, "n_remove": crowd.pick_n_remove(self.rng, len(F), F.shape[1]), "seed": self.rng.randrange(2 ** 31)}
 
